@@ -14,6 +14,7 @@ SUBSETS = {
     "iter": ["tests/propagators", "tests/orbits/test_ephem.py", "tests/orbits/test_orbit.py"],
     "links": ["tests/utils/test_node.py", "tests/frames", "tests/env/test_jpl.py", "tests/orbits/test_forms.py"],
     "streams": ["tests/propagators/test_listeners.py", "tests/orbits/test_ephem.py", "tests/frames/test_stations.py"],
+    "tles": ["tests/io/test_tle.py", "tests/propagators/test_sgp4beta.py", "tests/io/ccsds/test_omm.py"],
 }
 ALL = ["--doctest-modules", "beyond", "tests"]
 
@@ -173,16 +174,47 @@ def validate_links(ctx, events, label):
     return len(steps)
 
 
+def validate_tles(ctx, events, label):
+    """TLE texts parsed by the suite -> TleTrace.tla (column table of Tle.tla)"""
+    from lib import tlc as tlcmod
+    from lib.tlc import RawTla
+    from checks.c12 import rec, fn, BASE, CORNER
+    evs = [e for e in events if e["k"] == "tle"]
+    if not evs:
+        return 0
+    name, mc, cl = tlcmod.wrap("TleTrace", {"Base": rec(BASE), "Corner": fn({k: set(list(v)[:1]) for k, v in CORNER.items()})}, name="MCTleTrace")
+    cfg = "INIT TInit\nNEXT TNext\n" + cl + "INVARIANT Report\nCHECK_DEADLOCK FALSE\n"
+    path = os.path.join(ctx.scratch, f"suite-tles-{label}.json")
+    with open(path, "w") as fh:
+        json.dump({"events": evs}, fh)
+    r = ctx.tlc(name, label=f"suite TLE texts {label}", cfg_text=cfg, extra_files={name + ".tla": mc}, workers=4, env={"TRACE_FILE": path}, timeout=900)
+    if r.distinct < len(evs):
+        raise MachineryFailure(f"TleTrace visited {r.distinct} states for {len(evs)} texts")
+    bad = 0
+    for (k, f) in r.prints:
+        e = evs[k - 1]
+        bad += 1
+        for c in sorted(f):
+            ctx.violation(f"suite/tle-{c}", f"test-suite trace, {e['test']}: the library read field {c} differently from the column table for\n"
+                                            f"{''.join(e['l1'])}\n{''.join(e['l2'])}", {"l1": "".join(e["l1"]), "l2": "".join(e["l2"]), "clause": c,
+                                                                                         "logged": {kk: vv for kk, vv in e.items() if kk not in ("l1", "l2")}})
+    ctx.clause("test-suite traces: every TLE text the suite parses is read as the column table says, and is valid (TleTrace.tla)", len(evs), bad)
+    ctx.evaluations += len(evs)
+    for e in evs:
+        ctx.nontrivial.add("suite:tle:" + "".join(e["l1"])[2:7] + "".join(e["l1"])[18:32])
+    return len(evs)
+
+
 def run(ctx, pid, what):
     """what: 'dates' | 'iter' | 'links' | 'streams'"""
     thorough = ctx.tier == "thorough"
     paths = ALL if thorough else SUBSETS[what]
     events, info = record(ctx, paths, what)
-    keep = {"dates": ("date", "scale", "plus", "minus"), "iter": ("iter",), "links": ("link",), "streams": ("iter",)}[what]
+    keep = {"dates": ("date", "scale", "plus", "minus"), "iter": ("iter",), "links": ("link",), "streams": ("iter",), "tles": ("tle",)}[what]
     events = [e for e in events if e["k"] in keep]
     if what == "streams":        # iterations with listeners: the stream clauses (fresh, ordered, between) are the ones exercised
         events = [e for e in events if e["listeners"] > 0]
-    n = validate_links(ctx, events, what) if what == "links" else validate_events(ctx, pid, events, what)
+    n = validate_links(ctx, events, what) if what == "links" else validate_tles(ctx, events, what) if what == "tles" else validate_events(ctx, pid, events, what)
     info["validated"] = n
     ctx.extra.setdefault("suite_traces", {})[what] = info
     if n == 0:
